@@ -285,6 +285,295 @@ def run_c20(args, inp, rng):
     return traces
 
 
+# ================================================================ C19 / C18: DirPack.tla cases on the real code
+PFX = {"": b"", "ro.": b"ro.", "imm.": b"imm."}
+# (decomposed / singleton form, NFC form): the harness's table for the Spec's abstract names e2->e1, k2->k1
+NFC_PAIRS = {"e": [("e\u0301", "\u00e9"), ("A\u030a", "\u00c5"), ("\u1100\u1161", "\uac00"), ("o\u0302\u0301", "\u1ed1")],
+             "k": [("\u212a", "K"), ("\u212b", "\u00c5"), ("\u2126", "\u03a9")]}
+for _l in NFC_PAIRS.values():
+    for (_d, _c) in _l:
+        assert unicodedata.normalize("NFC", _d) == _c and _d != _c and unicodedata.normalize("NFC", _c) == _c
+
+
+class Caps:
+    """Concrete cap strings for the Spec's cap records [pfx, kind, lvl, obj], one object per entry."""
+    def __init__(self, tag):
+        k = lambda t, n=16: fake_key(tag + t, n)
+        ssk = uri_mod.WriteableSSKFileURI(k(b"ssk"), k(b"sskfp", 32))
+        mdmf = uri_mod.WriteableMDMFFileURI(k(b"mdmf"), k(b"mdmffp", 32))
+        dssk = uri_mod.WriteableSSKFileURI(k(b"dssk"), k(b"dsskfp", 32))
+        dmdmf = uri_mod.WriteableMDMFFileURI(k(b"dmdmf"), k(b"dmdmffp", 32))
+        chk = uri_mod.CHKFileURI(k(b"chk"), k(b"ueb", 32), 3, 10, 1000 + tag[0])
+        dchk = uri_mod.CHKFileURI(k(b"dchk"), k(b"dueb", 32), 3, 10, 2000 + tag[0])
+        hx = k(b"fut").hex().encode()
+        self.t = {
+            ("CHK", "r"): chk.to_string(),
+            ("LIT", "r"): uri_mod.LiteralFileURI(k(b"lit", 9)).to_string(),
+            ("DIR2-CHK", "r"): uri_mod.ImmutableDirectoryURI(dchk).to_string(),
+            ("DIR2-LIT", "r"): uri_mod.LiteralDirectoryURI(uri_mod.LiteralFileURI(b"")).to_string() + base32_of(k(b"dlit", 5)),
+            ("SSK", "w"): ssk.to_string(), ("SSK", "r"): ssk.get_readonly().to_string(),
+            ("MDMF", "w"): mdmf.to_string(), ("MDMF", "r"): mdmf.get_readonly().to_string(),
+            ("DIR2", "w"): uri_mod.DirectoryURI(dssk).to_string(), ("DIR2", "r"): uri_mod.DirectoryURI(dssk).get_readonly().to_string(),
+            ("DIR2-MDMF", "w"): uri_mod.MDMFDirectoryURI(dmdmf).to_string(),
+            ("DIR2-MDMF", "r"): uri_mod.MDMFDirectoryURI(dmdmf).get_readonly().to_string(),
+            ("FUT", "w"): b"x-tahoe-future-cap:w" + hx, ("FUT", "r"): b"x-tahoe-future-cap:r" + hx,
+            ("FUTW", "w"): b"x-tahoe-future-test-writeable:w" + hx, ("FUTW", "r"): b"x-tahoe-future-test-writeable:r" + hx,
+            ("FUTM", "w"): b"x-tahoe-future-test-mutable:w" + hx, ("FUTM", "r"): b"x-tahoe-future-test-mutable:r" + hx,
+        }
+        self.back = {}
+        for (kind, lvl), body in self.t.items():
+            for p, pb in PFX.items():
+                self.back[pb + body] = {"pfx": p, "kind": kind, "lvl": lvl, "obj": "o"}
+        self.secrets = [v for (kind, lvl), v in self.t.items() if lvl == "w" and kind in ("SSK", "MDMF", "DIR2", "DIR2-MDMF")]
+        self.writekeys = [ssk.writekey, mdmf.writekey, dssk.writekey, dmdmf.writekey]
+
+    def concrete(self, c):
+        if c["kind"] == "none":
+            return None
+        return PFX[c["pfx"]] + self.t[(c["kind"], c["lvl"])]
+
+    def abstract(self, b):
+        if not b:
+            return {"pfx": "", "kind": "none", "lvl": "", "obj": ""}
+        return dict(self.back.get(b, {"pfx": "?", "kind": repr(b), "lvl": "?", "obj": "?"}))
+
+
+def base32_of(b):
+    from allmydata.util import base32
+    return base32.b2a(b)
+
+
+def node_abstract(caps, node):
+    from allmydata.interfaces import IDirectoryNode
+    unknown = node.is_unknown()
+    err = ""
+    if unknown and node.error is not None:
+        err = type(node.error).__name__
+    return {"known": not unknown, "rw": caps.abstract(node.get_write_uri()), "ro": caps.abstract(node.get_readonly_uri()),
+            "err": err, "mutable": (False if unknown else bool(node.is_mutable())),
+            "dir": (False if unknown else bool(IDirectoryNode.providedBy(node)))}
+
+
+def rand_json(rng, depth=0):
+    x = rng.random()
+    if depth > 2 or x < 0.45:
+        return rng.choice([0, 1, -7, 2 ** 40, 1.5, -0.25, True, False, None, "", "a,b:c", "\u00e9\u4e2d", "x" * rng.randint(0, 30),
+                           "12:ab,", "\n\t\"\\"])
+    if x < 0.75:
+        return {rand_key(rng): rand_json(rng, depth + 1) for _ in range(rng.randint(0, 4))}
+    return [rand_json(rng, depth + 1) for _ in range(rng.randint(0, 4))]
+
+
+def rand_key(rng):
+    return rng.choice(["k", "tahoe", "ctime", "mtime", "no-write", "\u00fc", "a:b", "1", "", "long" * 5, "linkcrtime"]) + rng.choice(["", "", "2", "_"])
+
+
+def rand_md(rng):
+    md = {rand_key(rng): rand_json(rng, 1) for _ in range(rng.randint(0, 4))}
+    if rng.random() < 0.3:
+        md["tahoe"] = {"linkcrtime": rng.choice([1, 1.5, 1234567890.123]), "linkmotime": rng.randint(0, 10 ** 9)}
+    return md
+
+
+ASCII = "abcXYZ019 _-.:,;/\\'\"%$#@!()[]{}<>|~^&*+=?"
+STABLE = "\u00e9\u00c5\u4e2d\u6587\u0416\u03a9\u00df\u0142\uac00\u3042\U0001f600\u0915"
+
+
+def concrete_name(rng, atom, uniq):
+    """concrete string for an abstract name atom of DirPack.tla, made unique by an NFC-stable prefix"""
+    pre = "n%d_" % uniq
+    if atom == "a":
+        return pre + "".join(rng.choice(ASCII) for _ in range(rng.randint(0, 12)))
+    if atom == "s1":
+        s = pre + "".join(rng.choice(STABLE + "ab") for _ in range(rng.randint(1, 10)))
+        assert unicodedata.normalize("NFC", s) == s
+        return s
+    raise ValueError(atom)
+
+
+def name_pair(rng, letter, uniq):
+    d, c = rng.choice(NFC_PAIRS[letter])
+    pre = "n%d_" % uniq
+    suf = rng.choice(["", "z", ".txt", "\u4e2d"])
+    return {letter + "2": pre + d + suf, letter + "1": pre + c + suf}
+
+
+class PackWorld:
+    def __init__(self, workdir, seed):
+        from allmydata.interfaces import MDMF_VERSION
+        self.g = Grid(workdir, num_servers=1, k=1, n=1, happy=1, seed=seed)
+        self.nm = self.g.nodemaker
+        self.mut = self.g.run(self.nm.create_new_mutable_directory())
+        self.mut_ro = self.nm.create_from_cap(self.mut.get_readonly_uri())
+        self.mdmf = self.g.run(self.nm.create_new_mutable_directory(version=MDMF_VERSION))
+        self.mdmf_ro = self.nm.create_from_cap(self.mdmf.get_readonly_uri())
+        self.imm = self.g.run(self.nm.create_immutable_directory({}))
+        assert not self.imm.is_mutable() and self.mut_ro.is_readonly() and not self.mut.is_readonly()
+
+
+def split_entries(packed):
+    """plaintext fields of a packed directory: list of (name_utf8, ro_field, rwcapdata, metadata_json)"""
+    from allmydata.util.netstring import split_netstring
+    out, pos = [], 0
+    while pos < len(packed):
+        (entry,), pos = split_netstring(packed, 1, pos)
+        fields, _ = split_netstring(entry, 4)
+        out.append(tuple(fields))
+    return out
+
+
+def exc_name(thunk):
+    try:
+        return "ok", thunk()
+    except Exception as e:
+        return type(e).__name__, None
+
+
+def observe_case(pw, rng, case, idx, namecases):
+    """replay one GenDirPack case through create_from_cap, pack_children, _unpack_contents"""
+    caps = Caps(b"%d" % idx)
+    g = case["g"]
+    mutable = case["dirkind"] == "mut"
+    node = pw.nm.create_from_cap(caps.concrete(g["rw"]), caps.concrete(g["ro"]))
+    obs = {"n": node_abstract(caps, node)}
+    nc = rng.choice(namecases)
+    atoms = {}
+    if nc["raw"][0] in "ek":
+        atoms = name_pair(rng, nc["raw"][0], idx)
+    raw = atoms.get(nc["raw"]) or concrete_name(rng, nc["raw"], idx)
+    want_listed = atoms.get(nc["listed"]) or raw
+    md = rand_md(rng)
+    wdir, rdir = (rng.choice([(pw.mut, pw.mut_ro), (pw.mdmf, pw.mdmf_ro)]) if mutable else (pw.imm, pw.imm))
+    writekey = wdir._node.get_writekey() if mutable else None
+    if nc["foreign"]:
+        st, packed = exc_name(lambda: dirnode_mod._pack_normalized_children({raw: (node, md)}, writekey, deep_immutable=not mutable))
+    else:
+        st, packed = exc_name(lambda: pack_children({raw: (node, copy.deepcopy(md))}, writekey, deep_immutable=not mutable))
+    obs["pack"] = st
+    obs["name"] = {"raw": nc["raw"], "foreign": nc["foreign"]}
+    if st != "ok":
+        return obs
+    fields = split_entries(packed)
+    obs["stored_ro"] = caps.abstract(fields[0][1]) if len(fields) == 1 else {"pfx": "?", "kind": "entries=%d" % len(fields), "lvl": "?", "obj": "?"}
+    stored_name = fields[0][0].decode("utf-8")
+    obs["name"]["stored"] = nc["stored"] if stored_name == (atoms.get(nc["stored"]) or raw) else "?" + stored_name
+    obs["knows_w"] = any(s in packed for s in caps.secrets) or any(base32_of(k) in packed for k in caps.writekeys)
+    for who, d in (("w", wdir), ("r", rdir)):
+        children = d._unpack_contents(packed)
+        o = {"kept": len(children) == 1, "md": "md"}
+        if len(children) > 1 or (len(children) == 1 and want_listed not in children):
+            obs["name"]["listed"] = "?" + repr(list(children.keys()))
+        if want_listed in children:
+            child, gotmd = children[want_listed]
+            o["n"] = node_abstract(caps, child)
+            o["md"] = "md" if gotmd == md else "?" + json.dumps(gotmd)
+            obs["name"]["listed"] = nc["listed"]
+        obs[who] = o
+    return obs
+
+
+def run_c19_cases(args, inp, rng):
+    """entry level: every GenDirPack case, `reps` seeded concretisations each"""
+    wd = os.path.join(args.work, "pack")
+    pw = PackWorld(wd, args.seed)
+    out = []
+    try:
+        idx = 0
+        for rep in range(args.n):
+            for ci, case in enumerate(inp["cases"]):
+                idx += 1
+                o = observe_case(pw, rng, case, idx, inp["namecases"])
+                o["case"] = ci
+                out.append(o)
+    finally:
+        pw.g.close()
+    return out
+
+
+def run_c19_dirs(args, inp, rng):
+    """real directories of up to 50 children assembled from GenDirPack cases that packing accepts (plus, in some,
+    one child that must be refused), created through the public API, listed through write- and read-cap"""
+    from allmydata.interfaces import MDMF_VERSION, SDMF_VERSION
+    cases = inp["cases"]
+    namecases = [n for n in inp["namecases"] if not n["foreign"]]
+    out = []
+    uniq = 0
+    for b in range(args.n):
+        wd = os.path.join(args.work, "dirs_%d" % b)
+        g = Grid(wd, num_servers=1, k=1, n=1, happy=1, seed=args.seed)
+        nm = g.nodemaker
+        try:
+            dk = rng.choice(["mut", "mut", "imm"])
+            how = rng.choice(["create", "set_children"]) if dk == "mut" else "create"
+            version = rng.choice([SDMF_VERSION, MDMF_VERSION])
+            oks = [i for i, c in enumerate(cases) if c["dirkind"] == dk and c["pack"] == "ok" and c["cls"] == ""]
+            bads = [i for i, c in enumerate(cases) if c["dirkind"] == dk and c["pack"] != "ok" and c["cls"] == ""]
+            n = rng.choice([0, 1, 2, 5, 10, 20, 35, 50])
+            picks = [rng.choice(oks) for _ in range(n)]
+            bad = rng.choice(bads) if rng.random() < 0.3 else None
+            if bad is not None:
+                picks.insert(rng.randrange(len(picks) + 1), bad)
+            entries, children, uris = [], {}, {}
+            for ci in picks:
+                uniq += 1
+                caps = Caps(b"%d" % uniq)
+                nc = rng.choice(namecases)
+                atoms = name_pair(rng, nc["raw"][0], uniq) if nc["raw"][0] in "ek" else {}
+                raw = atoms.get(nc["raw"]) or concrete_name(rng, nc["raw"], uniq)
+                listed = atoms.get(nc["listed"]) or raw
+                md = rand_md(rng)
+                if how == "set_children":
+                    md.pop("no-write", None)      # Adder's no-write rule (C20) would diminish the child
+                gv = cases[ci]["g"]
+                rw, ro = caps.concrete(gv["rw"]), caps.concrete(gv["ro"])
+                ent = {"case": ci, "name": nc, "listed": listed, "caps": caps, "md": md, "pair": False}
+                if atoms and rng.random() < 0.3 and ci != bad:
+                    # the same child under two raw names with one normal form, the other spelling first
+                    other = atoms[nc["listed"]] if nc["raw"] != nc["listed"] else atoms[nc["raw"][0] + "2"]
+                    children[other] = (nm.create_from_cap(rw, ro), {"loser": True})
+                    uris[other] = (rw, ro, {"loser": True})
+                    ent["pair"] = True
+                children[raw] = (nm.create_from_cap(rw, ro), copy.deepcopy(md))
+                uris[raw] = (rw, ro, copy.deepcopy(md))
+                entries.append(ent)
+            CLK.now = 1000
+            if how == "create":
+                if dk == "mut":
+                    st, node = exc_name(lambda: g.run(nm.create_new_mutable_directory(children, version=version)))
+                else:
+                    st, node = exc_name(lambda: g.run(nm.create_immutable_directory(children)))
+            else:
+                node = g.run(nm.create_new_mutable_directory(version=version))
+                st, _ = exc_name(lambda: g.run(node.set_children(uris)))
+            rec = {"dirkind": dk, "how": how, "status": st, "bad": bad if bad is not None else -1, "entries": [], "n": len(picks),
+                   "dircap": "" if node is None else node.get_uri().decode("ascii").split(":")[1]}
+            if node is not None:
+                handles = {"w": node, "r": nm.create_from_cap(node.get_readonly_uri())}
+                lists = {k: g.run(h.list()) for k, h in handles.items()}
+                rec["listed_names"] = {k: len(v) for k, v in lists.items()}
+                if st == "ok":
+                    for ent in entries:
+                        e = {"case": ent["case"], "name": ent["name"], "pair": ent["pair"]}
+                        for k in ("w", "r"):
+                            o = {"kept": ent["listed"] in lists[k], "md": "md"}
+                            if o["kept"]:
+                                child, gotmd = lists[k][ent["listed"]]
+                                o["n"] = node_abstract(ent["caps"], child)
+                                if how == "set_children":     # Adder adds the link times (C20); the rest must be the caller's
+                                    gotmd = {x: y for x, y in gotmd.items() if x != "tahoe"}
+                                    want = {x: y for x, y in ent["md"].items() if x != "tahoe"}
+                                else:
+                                    want = ent["md"]
+                                o["md"] = "md" if gotmd == want else "?" + json.dumps(gotmd)
+                            e[k] = o
+                        rec["entries"].append(e)
+            out.append(rec)
+        finally:
+            g.close()
+            shutil.rmtree(wd, ignore_errors=True)
+    return out
+
+
 def main():
     ap = argparse.ArgumentParser()
     ap.add_argument("--out", required=True)
@@ -302,6 +591,10 @@ def main():
     try:
         if args.mode == "c20":
             out = run_c20(args, inp, rng)
+        elif args.mode == "c19cases":
+            out = run_c19_cases(args, inp, rng)
+        elif args.mode == "c19dirs":
+            out = run_c19_dirs(args, inp, rng)
         else:
             raise SystemExit("unknown mode %s" % args.mode)
     finally:
